@@ -58,6 +58,7 @@ func Not(a *E) *E                  { return &E{K: "not", A: []*E{a}} }
 func Par(a *E) *E                  { return &E{K: "par", A: []*E{a}} }
 func Neg(a *E) *E                  { return &E{K: "neg", A: []*E{a}} }
 func Tilde(a *E) *E                { return &E{K: "tilde", A: []*E{a}} }
+func Tilde2(a *E) *E               { return &E{K: "tilde2", A: []*E{a}} }
 func Bang(a *E) *E                 { return &E{K: "bang", A: []*E{a}} }
 func Is(op string, a *E) *E        { return &E{K: "is", Op: op, A: []*E{a}} }
 func Raw(s string) *E              { return &E{K: "raw", S: s} }
@@ -149,9 +150,10 @@ func (e *E) Kinds() []string {
 
 // Style controls identifier quoting and array spelling.
 type Style struct {
-	Ident  string // "" (bare where possible, backtick otherwise), "bt" (always backtick), "dq" (always double quotes)
-	Arrays string // "" => ARRAY(...), "br" => [...]
-	Quote  string // "" => a quote inside a string literal is doubled (''), "bs" => it is backslash-escaped (\')
+	Ident  string          // "" (bare where possible, backtick otherwise), "bt" (always backtick), "dq" (always double quotes)
+	BT     map[string]bool // with Ident "dq": names written between backticks all the same
+	Arrays string          // "" => ARRAY(...), "br" => [...]
+	Quote  string          // "" => a quote inside a string literal is doubled (''), "bs" => it is backslash-escaped (\')
 }
 
 // NumLit renders a float64 as a SQL numeric literal the engine reads back exactly.
@@ -212,6 +214,11 @@ func Ident(path string, st *Style) string {
 	style := ""
 	if st != nil {
 		style = st.Ident
+	}
+	if style == "dq" && (st.BT[path] || strings.HasSuffix(path, `\`)) {
+		// written between backticks although the statement uses double quotes elsewhere (a name ending in a
+		// backslash has no double-quoted spelling: \" is the escaped quote)
+		style = "bt"
 	}
 	switch style {
 	case "dq":
@@ -274,6 +281,8 @@ func Render(e *E, st *Style) string {
 		return "(- " + Render(e.A[0], st) + ")"
 	case "tilde":
 		return "(~ " + Render(e.A[0], st) + ")"
+	case "tilde2":
+		return "(~ (~ " + Render(e.A[0], st) + "))"
 	case "bang":
 		return "(! " + Render(e.A[0], st) + ")"
 	case "in":
@@ -356,6 +365,8 @@ type Env struct {
 	Funcs map[string]func(args []any) (any, error)
 	// UnsignedTilde selects MySQL's unsigned 64-bit reading of ~ instead of two's complement.
 	UnsignedTilde bool
+	// TildeRound: ~ converts a fractional operand to an integer by rounding (MySQL) instead of truncating.
+	TildeRound bool
 }
 
 // ErrUnspecified is returned when the tree leaves the domain on which the property fixes a meaning
@@ -573,6 +584,22 @@ func Eval(e *E, row map[string]any, env *Env) (any, error) {
 			return float64(^uint64(int64(x))), nil
 		}
 		return float64(^int64(x)), nil
+	case "tilde2":
+		// ~ applied to ~: the complement is taken of the integer the operand converts to, so the double
+		// complement is that integer - the truncated operand, or (MySQL) the rounded one; independent of the
+		// signed / unsigned reading
+		v, err := Eval(e.A[0], row, env)
+		if err != nil {
+			return nil, err
+		}
+		x, ok := v.(float64)
+		if !ok || math.IsNaN(x) || math.Abs(x) >= 1<<52 {
+			return nil, unspec("~~ on %v", v)
+		}
+		if env != nil && env.TildeRound {
+			return math.Round(x), nil
+		}
+		return math.Trunc(x), nil
 	case "bang", "not":
 		v, err := Eval(e.A[0], row, env)
 		if err != nil {
